@@ -1620,6 +1620,12 @@ def register_matchers(ctx):
         r.get("dir") == "import" and r.get("doc", {}).get("fmt") == "kern"
         and set(r.get("clauses", [])) <= {"ties", "note_array"} and bool(r.get("clauses"))
         and has_tied_chord(r["doc"]))
+    # C19-K2: save_kern writes one spine per (voice, staff) pair and fills only the time before the first / after the
+    # last element of a pair in a measure, with one rest: a pair with a hole inside a measure, or with missing time
+    # that is not a single written value, cannot be written (the part shape decides, not the failure text)
+    ctx.matchers["C19-K2"] = lambda r: (
+        r.get("dir") == "export" and r.get("fmt") == "kern" and "voices" in r.get("doc", {})
+        and not kern_gaps_ok(r["doc"]))
 
 
 # --------------------------------------------------------------------------
@@ -1631,23 +1637,35 @@ def gen():
 
 
 def run(ctx):
-    ctx.rule = ("Abstract documents (1-3 staves/spines x 1-2 layers x 1-4 measures; notes, chords, rests, measure rests, spaces, "
-                "beams, tuplets 3:2 5:4 6:4 7:4 incl. dotted values inside tuplets, values whole..64th (128th/256th filler rests), "
-                "0-2 dots, ties incl. across barlines and on chords, grace notes, meter/key changes, pickups, repeats, endings, "
-                "meter/key/clef as attributes or children of staffDef/scoreDef; kern: spines, *^/*v sub-spines, reciprocal tuplet "
-                "values, tandem clef/meter/key/staff lines) drawn from VERIF_SEED, written by this module's own MEI/kern writers, "
-                "loaded by load_score/load_mei/load_kern.  Distinct non-trivial = distinct document text whose document has at "
-                "least one of: dots, tuplet, tie, grace, chord, two layers, >1 staff, meter/key change.  Export direction: parts "
-                "built from abstract documents, save_mei/save_kern, load_score.")
+    ctx.rule = ("IMPORT: abstract documents (1-3 staves/spines x 1-2 layers x 1-4 measures; notes, chords, rests, measure rests, spaces, "
+                "beams, tuplets 3:2 5:4 6:4 7:4 incl. dotted values inside tuplets and the nestings tuplet>beam>note, beam>tuplet>note, "
+                "tuplet>chord>note, values whole..64th (128th/256th filler rests), 0-2 dots, ties incl. across barlines and on chords, "
+                "grace notes, meter/key changes, pickups, repeats, endings, meter/key/clef as attributes or children of "
+                "staffDef/scoreDef; kern: spines, *^/*v sub-spines, reciprocal tuplet values, tandem clef/meter/key/staff lines) drawn "
+                "from VERIF_SEED, written by this module's own MEI/kern writers, loaded by load_score/load_mei/load_kern (file names "
+                "with several dots included).  Distinct non-trivial = distinct document text whose document has at least one of: dots, "
+                "tuplet, tie, grace, chord, two layers, >1 staff, meter/key change.  "
+                "EXPORT: parts built from abstract documents with 1-3 staves, 1-2 voices per staff numbered per staff block / "
+                "consecutively / by a random permutation of 1..max(4, #voices) (so that a voice number may equal the number of another "
+                "staff), notes and individual CHORD MEMBERS placed on another staff (MEI: each element with probability 0/0.15/0.3/0.5 per "
+                "part, 70% onto the staff numbered like the voice when there is one; kern: a prefix or suffix of a measure, the chord "
+                "at the boundary possibly split, such that each (voice, staff) pair stays one run with a single written value missing "
+                "before/after; 6% of the kern parts are placed freely -> known finding C19-K2), ties, dots, tuplets (also crossing "
+                "staves), measure-filling rests, pickups, objects added layer by layer / by time / with simultaneous chords of different "
+                "voices interleaved; save_mei / save_kern, load_score; every Note compared on (onset, duration, step, alter, octave, "
+                "staff): MEI id by id (ids survive), kern as a multiset.  Distinct non-trivial export case = distinct exported file with > 1 note.")
     ctx.trusted = ["Coq 8.16.1 kernel incl. vm_compute",
-                   "harness/props/c19.py: generator, the independent MEI/kern writers, denotation transcription (oracle), observer",
+                   "harness/props/c19.py: generator, the independent MEI/kern writers, denotation transcription (oracle), observer, "
+                   "the part builder of the export direction and its lxml reading of @staff in exported files",
                    "lxml / numpy text parsing inside partitura is exercised, not modelled"]
     ctx.assumptions = ["MEI without verovio (the use_verovio path is taken only when verovio imports; it does not here)",
                        "note-array onsets compared relative to the first row (pickup origin convention belongs to C02/C05), f4 tolerance 1e-4",
                        "kern float arithmetic (isclose/ceil) is modelled in exact rationals; a float artefact would show as a correspondence failure",
-                       "a zero-length measure after the final kern barline is ignored"]
+                       "a zero-length measure after the final kern barline is ignored",
+                       "export: parts are gap-free per voice and every symbolic duration matches its tick duration (the writers take the "
+                       "written value from symbolic_duration); no grace notes; rests are not compared (the property names notes)"]
     register_matchers(ctx)
-    ok, why = ctx.coq_props(expect_min=14)
+    ok, why = ctx.coq_props(expect_min=23)
     quick = ctx.tier == "quick"
     n_docs = {"mei": 150 if quick else 3000, "kern": 150 if quick else 3000}
     n_exp = 60 if quick else 800
@@ -1796,7 +1814,7 @@ def run_export(ctx, n, ok):
                     for nid in sorted(r[1], key=lambda x: int(x[1:])):
                         if nid in attrs and attrs[nid][2] is not None:
                             na, ca, en = attrs[nid]
-                            scases.append(ctuple([core.copt(na, lambda x: cz(int(x))), core.copt(ca, lambda x: cz(int(x))), cz(int(en)),
+                            scases.append(ctuple([coptz(na), coptz(ca), cz(int(en)),
                                                   cz(loaded[nid]), cz(r[1][nid][5])]))
                             sinfo.append((doc, nid))
                 continue
@@ -1835,6 +1853,10 @@ def run_export(ctx, n, ok):
         for i in fs_[:3]:
             ctx.violation("staff of note %s after save_mei/load: the model's resolution of the exported attributes disagrees with the loaded staff" % sinfo[i][1],
                           {"dir": "export", "fmt": "mei", "doc": sinfo[i][0], "clauses": ["model", "staff"]})
+
+
+def coptz(x):
+    return "(@None Z)" if x is None else "(Some %s)" % cz(int(x))
 
 
 def c_xcase(doc, fmt, loaded):
@@ -1991,8 +2013,19 @@ def replay(obj):
         print("---- export round trip:", res[0])
         if res[0] == "ok":
             print(res[3])
-            print("before:", [tuple(map(str, x)) for x in res[1]])
-            print("after: ", [tuple(map(str, x)) for x in res[2]])
+            bad = export_diff(r["fmt"], res[1], res[2])
+            print("voices per staff:", r["doc"].get("voices"), "insertion order:", (r["doc"].get("xopts") or {}).get("order"))
+            print("before (id: onset, duration, step, alter, octave, staff):")
+            for i in sorted(res[1], key=lambda x: int(x[1:])):
+                print("   ", i, fmt_xrow(res[1][i]))
+            print("after:")
+            for g in sorted(res[2], key=lambda x: (x[1], x[0] or "")):
+                print("   ", g[0], fmt_xrow(g[1:]))
+            print("---- every note kept onset, duration, pitch and staff:", "yes" if not bad else "NO")
+            for i_, e_, g_ in bad:
+                print("   DIFFERENT: %s before %s after %s" % (i_ or "", fmt_xrow(e_), [fmt_xrow(x) for x in (g_ or [])]))
         else:
             print(res[1])
+    elif r.get("dir") == "dispatch":
+        print(json.dumps(r, indent=1, default=str))
     return 0
